@@ -580,6 +580,19 @@ class Inliner:
         body = _body_without_doc(fd)
         if len(body) == 1 and isinstance(body[0], ast.Return) and body[0].value is not None:
             return body[0].value
+        # `if c: return a` / `else: return b` (or a trailing `return b`) is the expression `a if c else b`
+        if body and isinstance(body[0], ast.If) and len(body[0].body) == 1 and isinstance(body[0].body[0], ast.Return) and body[0].body[0].value is not None:
+            then = body[0].body[0].value
+            other = None
+            if len(body) == 1 and len(body[0].orelse) == 1 and isinstance(body[0].orelse[0], ast.Return):
+                other = body[0].orelse[0].value
+            elif len(body) == 2 and not body[0].orelse and isinstance(body[1], ast.Return):
+                other = body[1].value
+            else:
+                return None
+            if other is None:
+                other = ast.Constant(value=None)
+            return ast.fix_missing_locations(ast.copy_location(ast.IfExp(test=body[0].test, body=then, orelse=other), body[0]))
         return None
 
     # ------------------------------------------------------------------ expression-level substitution
@@ -1464,6 +1477,43 @@ def unroll_literal_loops(tree: ast.Module, unchanged: T.Optional[T.Set[int]] = N
     return count
 
 
+def merge_inplace_sorts(tree: ast.Module, unchanged: T.Optional[T.Set[int]] = None) -> int:
+    """`L.sort(<keywords>)` directly followed by `for ... in L:` (L a local list that is not read after that loop), in a
+    function that differs from the pinned one, is `for ... in sorted(L, <keywords>):`."""
+    count = 0
+    for fd in [n for n in ast.walk(tree) if isinstance(n, (ast.FunctionDef, ast.AsyncFunctionDef))]:
+        if unchanged and id(fd) in unchanged:
+            continue
+        params = {a.arg for a in fd.args.args + fd.args.kwonlyargs}
+
+        def visit_block(stmts: T.List[ast.stmt]) -> None:
+            nonlocal count
+            i = 0
+            while i < len(stmts):
+                st = stmts[i]
+                for fld in ("body", "orelse", "finalbody"):
+                    sub = getattr(st, fld, None)
+                    if isinstance(sub, list) and sub and isinstance(sub[0], ast.stmt):
+                        visit_block(sub)
+                for h in getattr(st, "handlers", []) or []:
+                    visit_block(h.body)
+                if isinstance(st, ast.Expr) and isinstance(st.value, ast.Call) and isinstance(st.value.func, ast.Attribute) and st.value.func.attr == "sort" \
+                        and isinstance(st.value.func.value, ast.Name) and not st.value.args and i + 1 < len(stmts):
+                    name = st.value.func.value.id
+                    nxt = stmts[i + 1]
+                    later = [x for r_ in stmts[i + 2:] for x in ast.walk(r_) if isinstance(x, ast.Name) and x.id == name]
+                    inside = [x for b_ in nxt.body for x in ast.walk(b_) if isinstance(x, ast.Name) and x.id == name] if isinstance(nxt, ast.For) else [None]
+                    if isinstance(nxt, ast.For) and isinstance(nxt.iter, ast.Name) and nxt.iter.id == name and not later and not inside and name not in params:
+                        nxt.iter = ast.copy_location(ast.Call(func=ast.Name(id="sorted", ctx=ast.Load()), args=[ast.Name(id=name, ctx=ast.Load())], keywords=st.value.keywords), nxt.iter)
+                        ast.fix_missing_locations(nxt)
+                        del stmts[i]
+                        count += 1
+                        continue
+                i += 1
+        visit_block(fd.body)
+    return count
+
+
 def split_compare_chains(tree: ast.Module, unchanged: T.Optional[T.Set[int]] = None) -> int:
     """`0 < a == b` in a function that differs from the pinned one becomes `0 < a and a == b`: the shared operand is a name,
     an attribute of a name or a constant, so evaluating it twice changes nothing."""
@@ -1730,6 +1780,7 @@ def normalise_program(trees: T.Dict[str, ast.Module]) -> T.Dict[str, int]:
     n_boolret = 0
     n_accrep = 0
     n_chains = 0
+    n_sorts = 0
     for m, t in trees.items():
         known = baseline().get(m)
         if known:
@@ -1742,12 +1793,14 @@ def normalise_program(trees: T.Dict[str, ast.Module]) -> T.Dict[str, int]:
             n_boolret += expand_bool_returns(t, same, {id(fd) for q, fd in _qualnames(t).items() if q in known})
             n_accrep += expand_accumulated_replace(t, same)
             n_chains += split_compare_chains(t, same)
+            n_sorts += merge_inplace_sorts(t, same)
     LAST_RUN["dispatch_expanded"] = n_disp
     LAST_RUN["literal_loops_unrolled"] = n_unrolled
     LAST_RUN["kwargs_splats_expanded"] = n_splats
     LAST_RUN["bool_returns_expanded"] = n_boolret
     LAST_RUN["accumulated_replace_expanded"] = n_accrep
     LAST_RUN["compare_chains_split"] = n_chains
+    LAST_RUN["inplace_sorts_merged"] = n_sorts
     inliners: T.Dict[str, Inliner] = {}
     for m, tree in trees.items():
         known = dict(baseline().get(m, {}))
